@@ -51,14 +51,22 @@ def run_C05(ctx, tier):
     viol = []
     for v in (s.get("violations") or []):
         viol.append({"key": v.get("kind"), "what": "spice %s on %s" % (v.get("kind"), json.dumps(v)), "input": v})
+    # the ledger half of the property (only canonical amounts enter a ledger; its balances stay canonical): the shared ledger run
+    lr = ledger_run(ctx, tier)
+    ls = lr["summary"]
+    for v in (ls.get("violations") or []):
+        if v["prop"] == "C05":
+            viol.append({"key": v["key"], "what": "%s [ledger trace %s step %s]" % (v["what"][:400], v["trace"], v["step"]), "detail": v})
+    ledger_stats = {k: n for k, n in ls["stats"].items() if "canon" in k or k.startswith("res.add.") or k.startswith("res.create.")}
     return {
-        "evaluations": s["evaluations"], "distinct_nontrivial": s["distinct_nontrivial"],
+        "evaluations": s["evaluations"] + ls["steps"], "distinct_nontrivial": s["distinct_nontrivial"],
         "rule": "exhaustive product of 64-bit boundary values {0,1,2,5e17,1e18-2..1e18+2,2^63-1..2^63+1,2^64-1e18-1..+1,2^64-2,2^64-1} per word "
                 "for Supply (17^4) and New (17^2), boundary product for Transfer/Drain (size by tier) + seeded random (90% canonical); "
                 "non-trivial = canonical operands whose run takes a carry, borrow, overflow or insufficient-funds branch; "
-                "boundary-product cases are distinct by construction",
+                "boundary-product cases are distinct by construction; plus every step of the shared ledger run (crafted vertices with non-canonical amounts on all entry paths; "
+                "monitor: no vertex of any snapshot carries a non-canonical amount)",
         "samples": s["samples"], "mismatches": mism, "violations": viol,
-        "extra": {"branches_reached": s["branches"], "canonical_cases": s["canonical_cases"],
+        "extra": {"branches_reached": s["branches"], "canonical_cases": s["canonical_cases"], "ledger_run": {"steps": ls["steps"], "results": ledger_stats, "reused_from_cache": lr.get("cached", False)},
                   "exhaustive_sets": s["exhaustive_sets"], "exhaustive": False,
                   "comparison": "extracted OCaml model vs Go on every case: error class + all output words"},
         "assumptions": ["model Spice.v corresponds to src/spice/spice.go (checked by this run's differential comparison)"],
